@@ -5,10 +5,15 @@ import (
 	"crypto/ed25519"
 	crand "crypto/rand"
 	"crypto/x509"
+	"database/sql"
 	"encoding/base64"
 	"encoding/json"
 	"encoding/pem"
 	"fmt"
+	_ "github.com/mattn/go-sqlite3"
+	psql "github.com/transparency-dev/witness/internal/persistence/sql"
+	"google.golang.org/grpc/codes"
+	"google.golang.org/grpc/status"
 	"io"
 	"math/rand/v2"
 	"net"
@@ -206,6 +211,9 @@ func binarySession(run *ev.Run, unit int64, r *rand.Rand, dir, bin string, tlsd 
 	var trace []string
 	kills := run.Pick(3, 5)
 	concurrentMode := unit%3 == 2 // one poster per log, requests of different logs in flight together
+	if concurrentMode {
+		kills = run.Pick(6, 16) // a life is short here, and whether the kill lands while an acknowledgement is ahead of a commit is a matter of timing
+	}
 	served2 := func(lg *gen.Log) (int, []byte) { return served(lg) }
 	for k := 0; k < kills && concurrentMode; k++ {
 		type fl struct {
@@ -234,20 +242,61 @@ func binarySession(run *ev.Run, unit int64, r *rand.Rand, dir, bin string, tlsd 
 					mu.Lock()
 					infl[li] = fl{refnoteText(cp), nx}
 					mu.Unlock()
-					code, _, _, err := be.Post(body(c, l.Branches[0].Consistency(c, nx), cp), 10*time.Second)
-					if err != nil || code != 200 {
-						return // the process is gone (or answers no more)
+					code, _, rb, err := be.Post(body(c, l.Branches[0].Consistency(c, nx), cp), 10*time.Second)
+					if err != nil {
+						return // the process is gone
+					}
+					if code != 200 {
+						run.Violate("binary_refuses_honest_update;concurrent_posters", fmt.Sprintf("honest update %d->%d (the only writer of its log) while requests of other logs are in flight: status %d body %q", c, nx, code, rb), unit, map[string]any{"trace": trace, "output": tail()})
+						return
 					}
 					mu.Lock()
 					cur[l], lastAck[l] = nx, refnoteText(cp)
 					infl[li] = fl{}
 					mu.Unlock()
+					// acknowledged means committed: an independent connection to the file (this process, the
+					// repository's own persistence layer over a second handle) must already see the checkpoint
+					if seen, ok := independentRead(db, l.ID); ok {
+						run.Count("binary_acks_checked_through_an_independent_connection")
+						if refnoteText(seen) != refnoteText(cp) {
+							run.Violate("binary_acknowledged_before_commit", fmt.Sprintf("update %d->%d was acknowledged, but an independent connection to the database file does not see it yet (a kill now would lose it)", c, nx), unit, map[string]any{"trace": trace, "seen_by_other_connection": string(seen), "acknowledged": string(cp)})
+							return
+						}
+					}
 					run.Count("binary_acked_updates")
 					run.Count("binary_acked_updates_concurrent")
 				}
 			}(li, l)
 		}
-		time.Sleep(time.Duration(5+r.IntN(40)) * time.Millisecond)
+		// eight more clients keep sending requests that are refused after the witness looked at its store
+		// (a genuine larger checkpoint with a junk proof): more requests in flight, no effect on the state
+		for ni := 0; ni < 8; ni++ {
+			l := w.U.Logs[ni%len(w.U.Logs)]
+			wg.Add(1)
+			go func(l *gen.Log) {
+				defer wg.Done()
+				junk := [][]byte{make([]byte, 32)}
+				for {
+					select {
+					case <-stop:
+						return
+					default:
+					}
+					mu.Lock()
+					c := cur[l]
+					mu.Unlock()
+					if c == 0 {
+						time.Sleep(time.Millisecond)
+						continue
+					}
+					if _, _, _, err := be.Post(body(c, junk, l.Honest(0, c+7)), 10*time.Second); err != nil {
+						return
+					}
+					run.Count("binary_refused_noise_requests")
+				}
+			}(l)
+		}
+		time.Sleep(time.Duration(20+r.IntN(60)) * time.Millisecond)
 		killGroup()
 		close(stop)
 		wg.Wait()
@@ -418,4 +467,29 @@ func refnoteText(raw []byte) string {
 		return ""
 	}
 	return n.Text
+}
+
+// independentRead opens the database file through a second handle of this process and reads the log's
+// checkpoint with the repository's own persistence layer (schema-agnostic). ok=false: could not tell.
+func independentRead(path, logID string) ([]byte, bool) {
+	h, err := sql.Open("sqlite3", path)
+	if err != nil {
+		return nil, false
+	}
+	defer h.Close()
+	h.SetMaxOpenConns(1)
+	for try := 0; try < 5; try++ {
+		ro, err := psql.NewPersistence(h).ReadOps(logID)
+		if err == nil {
+			var b []byte
+			if b, err = ro.GetLatest(); err == nil {
+				return b, true
+			}
+			if status.Code(err) == codes.NotFound {
+				return nil, true
+			}
+		}
+		time.Sleep(2 * time.Millisecond)
+	}
+	return nil, false
 }
